@@ -1,6 +1,6 @@
 #!/bin/bash
 # tools/runall.sh [tier] [ids...] : run checks sequentially, print id, exit code, seconds
-cd /verif
+cd "$(dirname "$0")/.."
 tier=${1:-quick}; shift
 ids="$@"
 if [ -z "$ids" ]; then ids=$(python3 -c "
